@@ -14,7 +14,7 @@ structure Scheme where
   annotation : String
   cols : List (String × String)
   noRestrictions : Bool := false
-  deriving Repr, BEq, DecidableEq, Inhabited
+  deriving Repr, DecidableEq, Inhabited
 
 def Scheme.names (s : Scheme) : List String := s.cols.map (·.1)
 def Scheme.size (s : Scheme) : Nat := s.cols.length
